@@ -407,28 +407,41 @@ class DataScale:
 
 
 class EpsVal:
-    """finite-difference step: rel * mean|data[comp]|"""
-    def __init__(self, rel, comp, per_cell, absval=True):
+    """finite-difference step: rel * max(mean|data[comp]|, floor)   (floor None: no floor)"""
+    def __init__(self, rel, comp, per_cell, absval=True, floor=None):
         self.rel, self.comp, self.per_cell, self.absval = Fraction(rel), comp, per_cell, absval
+        self.floor = floor
+
+    def with_floor(self, c):
+        c = Fraction(c)
+        if self.floor is not None:
+            c = max(c, self.floor)
+        return EpsVal(self.rel, self.comp, self.per_cell, self.absval, c)
 
     def __mul__(self, o):
-        if isinstance(o, (int, Fraction)):
-            return EpsVal(self.rel * o, self.comp, self.per_cell, self.absval)
         if isinstance(o, S) and o.is_const():
-            return EpsVal(self.rel * o.const(), self.comp, self.per_cell, self.absval)
+            o = o.const()
+        if isinstance(o, (int, Fraction)):
+            # rel*max(m, floor) * o  ==  (rel*o) * max(m, floor)
+            return EpsVal(self.rel * o, self.comp, self.per_cell, self.absval, self.floor)
         raise AnalysisError("perturbation scaled by a non-constant")
 
     __rmul__ = __mul__
 
     def __truediv__(self, o):
         if isinstance(o, Sym) and o.name == "nelem" and not self.per_cell:
+            if self.floor is not None:
+                raise AnalysisError("perturbation floor applied before the division by the cell count")
             return EpsVal(self.rel, self.comp, True, self.absval)
         if isinstance(o, (int, Fraction)):
-            return EpsVal(self.rel / o, self.comp, self.per_cell, self.absval)
+            return EpsVal(self.rel / o, self.comp, self.per_cell, self.absval, self.floor)
         raise AnalysisError("perturbation divided by an unsupported value")
 
     def __repr__(self):
-        return "%s*%s|data[%d]|" % (float(self.rel), "mean" if self.per_cell else "sum", self.comp)
+        core = "%s|data[%d]|" % ("mean" if self.per_cell else "sum", self.comp)
+        if self.floor is not None:
+            core = "max(%s, %s)" % (core, float(self.floor))
+        return "%s*%s" % (float(self.rel), core)
 
 
 class Elem:
@@ -505,6 +518,26 @@ class CArr:
 class _Return(Exception):
     def __init__(self, v):
         self.value = v
+
+
+class _Continue(Exception):
+    pass
+
+
+class IdxCond:
+    """condition on the generic loop index (i > 0, i == 0 ...): true for some iterations, false for
+    others -- both outcomes are explored by re-running the generic iteration"""
+    def __init__(self, text):
+        self.text = text
+
+    def __repr__(self):
+        return "<%s>" % self.text
+
+
+class ColCopy:
+    """Jacobian columns filled by copying (np.roll / slicing) other columns of the matrix"""
+    def __init__(self, how, path):
+        self.how, self.path = how, path
 
 
 class Trace:
@@ -604,18 +637,59 @@ class AffInterp:
         elif isinstance(st, ast.Pass):
             return
         elif isinstance(st, ast.If):
-            c = self.truth(self.eval(st.test, env, func), st, func)
+            tv = self.eval(st.test, env, func)
+            if isinstance(tv, IdxCond):
+                c = self._idx_choice(tv, st, func)
+            else:
+                c = self.truth(tv, st, func)
             self.block(st.body if c else st.orelse, env, func)
+        elif isinstance(st, ast.Continue):
+            raise _Continue()
         elif isinstance(st, ast.For):
             it = self.eval(st.iter, env, func)
             items = self.iterate(it, st, func)
             for x in items:
+                if isinstance(x, Idx):
+                    # generic iteration: conditions on the index are explored both ways
+                    saved = (self._idx_policy, self._idx_used, self._idx_path)
+                    pending = [[]]
+                    runs = 0
+                    while pending:
+                        self._idx_policy, self._idx_used, self._idx_path = pending.pop(), [], []
+                        runs += 1
+                        if runs > 16:
+                            raise AnalysisError("%s:%d too many index-dependent paths in a loop body" % (func.qualname, st.lineno))
+                        self.assign(st.target, x, env, func)
+                        try:
+                            self.block(st.body, env, func)
+                        except _Continue:
+                            pass
+                        for k in range(len(self._idx_policy), len(self._idx_used)):
+                            pending.append(self._idx_used[:k] + [not self._idx_used[k]])
+                    self._idx_policy, self._idx_used, self._idx_path = saved
+                    continue
                 self.assign(st.target, x, env, func)
-                self.block(st.body, env, func)
+                try:
+                    self.block(st.body, env, func)
+                except _Continue:
+                    pass
         elif isinstance(st, ast.Raise):
             raise AnalysisError("%s:%d raise reached in abstract execution" % (func.qualname, st.lineno))
         else:
             raise AnalysisError("%s:%d unsupported statement %s" % (func.qualname, st.lineno, type(st).__name__))
+
+    _idx_policy = None
+    _idx_used = None
+    _idx_path = None
+
+    def _idx_choice(self, cond, st, func):
+        if self._idx_used is None:
+            raise AnalysisError("%s:%d branch on a loop index outside a generic iteration" % (func.qualname, st.lineno))
+        k = len(self._idx_used)
+        c = self._idx_policy[k] if k < len(self._idx_policy) else True
+        self._idx_used.append(c)
+        self._idx_path.append("%s is %s" % (cond.text, c))
+        return c
 
     def iterate(self, it, st, func):
         if isinstance(it, (list, tuple, range)):
@@ -687,6 +761,8 @@ class AffInterp:
             key = ("PERT", repr(idx), v.pert.comp, str(v.pert.rel), v.pert.per_cell, v.pert.absval)
             o.form[key] = _padd(o.form.get(key, {}), {0: Fraction(1)})
         elif isinstance(o, JacMat):
+            if isinstance(v, tuple) and v and v[0] in ("jacview", "rolled"):
+                v = ColCopy("np.roll of other columns" if v[0] == "rolled" else "a copy of other columns", "; ".join(self._idx_path or []))
             o.stores.append((idx, v, "%s:%d" % (func.qualname, node.lineno)))
         else:
             raise AnalysisError("%s:%d unsupported item store" % (func.qualname, node.lineno))
@@ -847,6 +923,8 @@ class AffInterp:
             return o.slots[self.slot(idx, func, node)].copy()
         if isinstance(o, dict):
             return o[idx]
+        if isinstance(o, JacMat):
+            return ("jacview", idx)
         if isinstance(o, AArr) and isinstance(idx, Idx):
             return Elem(o, idx)
         if isinstance(o, AArr) and isinstance(idx, slice) and any(isinstance(x, (Idx, IdxClamp)) for x in (idx.start, idx.stop)):
@@ -888,8 +966,14 @@ class AffInterp:
         # short-circuit evaluation, as Python does
         is_and = isinstance(node.op, ast.And)
         res = is_and
+        idxc = None
         for vn in node.values:
             v = self.eval(vn, env, func)
+            if isinstance(v, IdxCond):
+                # undetermined operand: the result is decided by the others if one of them is
+                # absorbing, otherwise it is this condition
+                idxc = v if idxc is None else IdxCond("%s %s %s" % (idxc.text, "and" if is_and else "or", v.text))
+                continue
             if isinstance(v, Cond):
                 raise AnalysisError("%s:%d symbolic condition reached in abstract execution" % (func.qualname, node.lineno))
             t = self.truth(v, node, func)
@@ -897,7 +981,7 @@ class AffInterp:
                 return False
             if not is_and and t:
                 return True
-        return res
+        return idxc if idxc is not None else res
 
     def e_Compare(self, node, env, func):
         if len(node.ops) != 1:
@@ -909,6 +993,8 @@ class AffInterp:
             a = a.const()
         if isinstance(b, S) and b.is_const():
             b = b.const()
+        if isinstance(op, (ast.Eq, ast.NotEq)) and (isinstance(a, Idx) or isinstance(b, Idx)) and not (isinstance(a, Idx) and isinstance(b, Idx)):
+            return IdxCond(unparse(node))
         if isinstance(op, ast.Eq):
             return a == b
         if isinstance(op, ast.NotEq):
@@ -924,6 +1010,8 @@ class AffInterp:
             return a is not b
         if isinstance(a, (int, Fraction)) and isinstance(b, (int, Fraction)):
             return {ast.Lt: a < b, ast.LtE: a <= b, ast.Gt: a > b, ast.GtE: a >= b}[type(op)]
+        if isinstance(a, Idx) or isinstance(b, Idx):
+            return IdxCond(unparse(node))
         raise AnalysisError("%s:%d comparison of abstract values" % (func.qualname, node.lineno))
 
     def e_BinOp(self, node, env, func):
@@ -991,7 +1079,15 @@ class AffInterp:
                 raise AnalysisError("%s:%d rhs() of a non-field" % (func.qualname, node.lineno))
             j = len(self.trace.K)
             self.trace.K.append((fld.time.s, {q: fld.data[q].copy() for q in range(NEQ)}, "%s:%d" % (func.qualname, node.lineno)))
-            return [AArr({("K", j, q): {0: Fraction(1)}}) for q in range(NEQ)]
+            # the arrays a right-hand side returns belong to it: a provider that writes its result
+            # into preallocated buffers overwrites them at its next evaluation.  The very objects
+            # returned last time (not their copies) therefore become stale now.
+            for q, old in enumerate(getattr(self, "_rhs_owned", [])):
+                old.form = {("STALE", q): {0: Fraction(1)}}
+                old.kinds = set()
+            out = [AArr({("K", j, q): {0: Fraction(1)}}) for q in range(NEQ)]
+            self._rhs_owned = out
+            return out
         return Opaque(f.name + "()")
 
     def builtin(self, name, args, kwargs, node, func):
@@ -1015,6 +1111,14 @@ class AffInterp:
                 return list(enumerate(self.iterate(args[0], node, func)))
             if base == "zip":
                 return list(zip(*[self.iterate(a, node, func) for a in args]))
+            if base == "max" and len(args) == 2 and any(isinstance(a, EpsVal) for a in args):
+                e = args[0] if isinstance(args[0], EpsVal) else args[1]
+                c = args[1] if e is args[0] else args[0]
+                if isinstance(c, S) and c.is_const():
+                    c = c.const()
+                if isinstance(c, (int, Fraction)) and e.rel == 1:
+                    return e.with_floor(c)
+                raise AnalysisError("%s:%d unsupported floor of the perturbation" % (func.qualname, ln))
             if base in ("min", "max") and any(isinstance(a, (Idx, IdxClamp)) for a in args):
                 return IdxClamp("%s(%s)" % (base, ", ".join(repr(a) for a in args)))
             if base == "min":
@@ -1026,6 +1130,8 @@ class AffInterp:
             if base == "abs":
                 return self.builtin("np.abs", args, kwargs, node, func)
             raise AnalysisError("%s:%d unsupported builtin %s" % (func.qualname, ln, base))
+        if base == "roll" and args and isinstance(args[0], tuple) and args[0] and args[0][0] == "jacview":
+            return ("rolled", args[0])
         if base in ("min", "amin"):
             return self.dtred("min", args[0])
         if base in ("max", "amax"):
@@ -1142,13 +1248,14 @@ def run_step(project, cls, nsteps=1):
     return ai, out
 
 
-def run_jacobian(project, cls):
-    """abstract interpretation of calc_jacobian itself (finite-difference structure)"""
+def run_jacobian(project, cls, islinear=0):
+    """abstract interpretation of calc_jacobian itself (finite-difference structure) on a fresh
+    solver object (no cached Jacobian), for a nonlinear (default) or a linear model"""
     ai = AffInterp(project, cls)
     ai.construct()
     ai.inline_jacobian = True
     f = AField.initial()
-    f.model.islinear = 0          # nonlinear model: no cache shortcut
+    f.model.islinear = islinear
     func = project.resolve(cls, "calc_jacobian")
     if func is None:
         raise AnalysisError("no calc_jacobian for %s" % cls.qualname)
